@@ -129,12 +129,33 @@ def run(repo):
                          'and must pick [e[1], e[2], e[0]]; found %s' % perms, '', {'props': ['C11']}))
     eco = repo.func('eco_solver.solve')
     res.functions.add(eco.fq)
-    ident = False
+    # the loop (or comprehension) over the exponential cones uses each triple as a whole: the
+    # loop variable is read, and never re-indexed entry by entry
+    sites = []
     for n in walk_no_nested(eco.node):
         if isinstance(n, ast.For) and isinstance(n.target, ast.Name) and 'xmat' in ntext(n.iter):
-            body = ' '.join(ntext(s) for s in n.body)
-            v = n.target.id
-            ident = ('np.arange(3' in body and (', %s)' % v) in body.replace(' ', ' ')) and '[%s[' % v not in body
+            sites.append((n.target.id, n.body))
+        elif isinstance(n, (ast.ListComp, ast.GeneratorExp)):
+            g = n.generators[0]
+            if isinstance(g.target, ast.Name) and 'xmat' in ntext(g.iter):
+                sites.append((g.target.id, [n.elt]))
+    if not sites:
+        raise AnalysisError('eco_solver.solve: no loop over the exponential cones (xmat) found')
+    ident = True
+    for v, body in sites:
+        whole = reidx = False
+        subs = set()
+        for st in body:
+            for x in ast.walk(st):
+                if isinstance(x, ast.Subscript) and isinstance(x.value, ast.Name) and x.value.id == v:
+                    reidx = True
+                    subs.add(id(x.value))
+        for st in body:
+            for x in ast.walk(st):
+                if isinstance(x, ast.Name) and x.id == v and isinstance(x.ctx, ast.Load) and id(x) not in subs:
+                    whole = True
+        if reidx or not whole:
+            ident = False
     res.inst({'ecos': 'triple passed unpermuted', 'ok': ident}, ident)
     if not ident:
         res.fail(Finding(RULE, eco.fq, 'ECOS exp-cone rows',
